@@ -286,6 +286,27 @@ func Builders(thorough bool) []Builder {
 			return &rtcp.ExtendedReport{SenderSSRC: t.u32(), Reports: []rtcp.ReportBlock{b.Make(t)}}
 		})
 	}
+	// report blocks of 64 KiB and more (block length fields >= 0x3fff)
+	for _, n := range []int{65532, 65536, 65540} {
+		n := n
+		add("ExtendedReport", fmt.Sprintf("big:blocks=unknown-%d-octets+rrt", n), func() rtcp.Packet {
+			t := &tagger{}
+			return &rtcp.ExtendedReport{SenderSSRC: t.u32(), Reports: []rtcp.ReportBlock{
+				&rtcp.UnknownReportBlock{XRHeader: rtcp.XRHeader{BlockType: 9, TypeSpecific: rtcp.TypeSpecificField(t.u8())}, Bytes: t.bytes(n)},
+				&rtcp.ReceiverReferenceTimeReportBlock{NTPTimestamp: t.u64()}}}
+		})
+	}
+	for _, n := range []int{16380, 16381, 16382} {
+		n := n
+		add("ExtendedReport", fmt.Sprintf("big:blocks=rrt+receipt-times-%d", n), func() rtcp.Packet {
+			t := &tagger{}
+			b := &rtcp.PacketReceiptTimesReportBlock{T: 3, SSRC: t.u32(), BeginSeq: t.u16(), EndSeq: t.u16(), ReceiptTime: make([]uint32, n)}
+			for i := range b.ReceiptTime {
+				b.ReceiptTime[i] = uint32(i)*2654435761 + 1
+			}
+			return &rtcp.ExtendedReport{SenderSSRC: t.u32(), Reports: []rtcp.ReportBlock{&rtcp.ReceiverReferenceTimeReportBlock{NTPTimestamp: t.u64()}, b}}
+		})
+	}
 	add("ExtendedReport", "blocks=0", func() rtcp.Packet {
 		t := &tagger{}
 		return &rtcp.ExtendedReport{SenderSSRC: t.u32()}
@@ -469,8 +490,8 @@ func DomainOf(b Builder, thorough bool, mine func() bool, yield func(V) bool) bo
 			return false
 		}
 	}
-	if b.Type == "CompoundPacket" || b.Type == "RawPacket" {
-		return true
+	if b.Type == "CompoundPacket" || b.Type == "RawPacket" || strings.HasPrefix(b.Shape, "big:") {
+		return true // containers, raw frames and the 64 KiB shapes: base value only
 	}
 	leaves := Leaves(b.Make())
 	if len(leaves) > 40 {
